@@ -286,7 +286,7 @@ def main(argv=None):
     cfgs = fam.l2_configs(defs, "thorough" if not quick else "quick", near=True,
                           modes=fam.MODES[:3] if quick else None)
     bound = 2 if quick else 3
-    jobs = [(c, bound if c.mode[0] != "tau_adaptive" else bound - 1, 20000 if quick else 100000) for c in cfgs]
+    jobs = [(c, bound if c.mode[0] != "tau_adaptive" else bound - 1, 20000 if quick else 30000) for c in cfgs]
     if not quick:
         # the 1-edit neighbourhood of the seeds with deviation bound 1
         seen = {gen.canon(d) for _s, d in defs}
